@@ -73,14 +73,13 @@ func (p DictPattern) Bind(ctx context.Context, local Scope, value Value) (contex
 
 	result := EmptyScope
 	m := dict.m
-	for _, entry := range p.entries {
+	var extra *DictPatternEntry
+	for i, entry := range p.entries {
 		var dictValue Value
 		if _, is := entry.pattern.pattern.(ExtraElementPattern); is {
-			if m.IsEmpty() {
-				dictValue = None
-			} else {
-				dictValue = Dict{m: m}
-			}
+			// `...` captures what the keyed entries leave over, wherever it is written.
+			extra = &p.entries[i]
+			continue
 		} else {
 			key := entry.at
 			if lit, is := key.(LiteralExpr); is {
@@ -106,6 +105,23 @@ func (p DictPattern) Bind(ctx context.Context, local Scope, value Value) (contex
 		var scope Scope
 		var err error
 		ctx, scope, err = entry.pattern.pattern.Bind(ctx, local, dictValue)
+		if err != nil {
+			return ctx, EmptyScope, err
+		}
+		result, err = result.MatchedUpdate(scope)
+		if err != nil {
+			return ctx, EmptyScope, err
+		}
+	}
+
+	if extra != nil {
+		var rest Value = None
+		if !m.IsEmpty() {
+			rest = Dict{m: m}
+		}
+		var scope Scope
+		var err error
+		ctx, scope, err = extra.pattern.pattern.Bind(ctx, local, rest)
 		if err != nil {
 			return ctx, EmptyScope, err
 		}
